@@ -1443,3 +1443,80 @@ func c14r14(rc *core.RC) {
 		rc.Unknown("module/fetched-decoders", token.NoPos, "found %d runs of a decoder fetched for the type word of an interface header (confirmed: 6)", n)
 	}
 }
+
+// ---- C14.R15 the encoder tells interfaces with methods by their methods ----
+
+// An interface value with methods holds (method table, data), one without holds (type, data). InterfaceCode.ToOpcode
+// marks the opcode with NonEmptyInterfaceFlags so that the interpreter takes the type out of the method table. What
+// decides is whether the interface type has methods, NumMethod() > 0 (C02.R11 is the decoder's twin). Identity with
+// interface{} is another question: a defined type without methods (type Any interface{}) is not interface{} and has
+// no method table; marked as non-empty, its type word is read as a method table and the program is looked up for
+// whatever small integer lies there.
+func c14r15(rc *core.RC) {
+	p := rc.P
+	pk := p.Pkg("encoder")
+	if pk == nil {
+		rc.Unknown("encoder", token.NoPos, "package not found")
+		return
+	}
+	info := pk.TypesInfo
+	n := 0
+	for _, fd := range p.Funcs("encoder") {
+		if fd.Body == nil {
+			continue
+		}
+		name := p.FuncName(fd)
+		k := 0
+		ast.Inspect(fd.Body, func(m ast.Node) bool {
+			as, ok := m.(*ast.AssignStmt)
+			if !ok || len(as.Rhs) != 1 {
+				return true
+			}
+			sets := false
+			ast.Inspect(as.Rhs[0], func(x ast.Node) bool {
+				if id, ok := x.(*ast.Ident); ok && id.Name == "NonEmptyInterfaceFlags" {
+					if _, isC := core.ObjOf(info, id).(*types.Const); isC {
+						sets = true
+					}
+				}
+				return true
+			})
+			if !sets || (as.Tok != token.OR_ASSIGN && as.Tok != token.ASSIGN) {
+				return true
+			}
+			if f := core.FieldOf(info, as.Lhs[0]); f == nil || f.Name() != "Flags" {
+				return true
+			}
+			k++
+			n++
+			rc.Touch(name)
+			byMethods := false
+			for _, cn := range condChainNodes(fd, as) {
+				if !cn.pos {
+					continue
+				}
+				be, ok := core.Unparen(cn.cond).(*ast.BinaryExpr)
+				if !ok {
+					continue
+				}
+				c, ok := core.Unparen(be.X).(*ast.CallExpr)
+				if !ok {
+					continue
+				}
+				sel, ok := c.Fun.(*ast.SelectorExpr)
+				if !ok || sel.Sel.Name != "NumMethod" {
+					continue
+				}
+				v, isC := core.ConstInt(info, be.Y)
+				if isC && ((be.Op == token.GTR && v == 0) || (be.Op == token.NEQ && v == 0) || (be.Op == token.GEQ && v == 1)) {
+					byMethods = true
+				}
+			}
+			rc.Check(byMethods, fmt.Sprintf("%s/non-empty-interface-mark#%d by-NumMethod", name, k), as.Pos(), "NonEmptyInterfaceFlags is set under a test that is not NumMethod() > 0: a defined interface type without methods is not identical with interface{} and has no method table; marked, its type word is read as one (Marshal of a value held by `type Any interface{}` dereferences nil)")
+			return true
+		})
+	}
+	if n < 1 {
+		rc.Unknown("encoder/non-empty-interface-marks", token.NoPos, "no statement that sets NonEmptyInterfaceFlags found")
+	}
+}
